@@ -67,6 +67,6 @@ Definition c10_case (ts : list txn) (eqa : acct) (sel : option (list (bool * lis
   ((if agree then 1 else 0) + (if spec_ok then 2 else 0) + (if c10_in_domain ps then 4 else 0))%N.
 
 (* the equity account name of the configuration (split at ':'), and whether Settings accepted
-   it with the equity export as a target. bit 1: accepted = eq_account_ok *)
+   it with the equity export as a target. bit 1: accepted = eq_account_ok2 (the grammar rule) *)
 Definition c10_name_case (eqa : acct) (accepted : bool) : N :=
-  if Bool.eqb (eq_account_ok eqa) accepted then 1%N else 0%N.
+  if Bool.eqb (eq_account_ok2 eqa) accepted then 1%N else 0%N.
